@@ -27,7 +27,7 @@ from . import tlc
 from .common import BUILD, Report, jdump, repo_path, shrink, use_repo
 
 PROPS = ("C19",)
-ACTIONS = ["AddChild", "DoFilter", "DoSort"]
+ACTIONS = ["AddChild", "DoFilter", "DoPreSort", "DoSort"]
 MODNAME = "verif_c19_mod"
 
 # model id n -> (class, method): the order of the FULL ids is the order of n, the order of the method names alone
@@ -113,7 +113,7 @@ def kit():
         """TestSuite subclass with the sort_tests protocol (body as in testtools.testsuite.FixtureSuite)."""
 
         def sort_tests(self):
-            self._tests = testsuite.sorted_tests(self, True)
+            self._tests = list(testsuite.sorted_tests(self, True))
 
     class CustomFilter(unittest.TestSuite):
         """TestSuite subclass with its own filter_by_ids: answers with an equivalent suite of its own class."""
@@ -491,41 +491,85 @@ def replay_row(rep, row, n, cfg, prog=None):
         done("filter", f["ids"], bad, {"kept": f["kept"], "form": (n + j) % 4})
     done("sort", None, check_sort(build(root_abs, variant), row["sorted"], row["sortedPost"]),
          {"sorted": row["sorted"], "sortedPost": row["sortedPost"]})
+    # sequences on the SAME objects: sort, sort again; sort, filter in place, sort again (history independence)
+    if row.get("seqs"):
+        has_own_sort = "customsort" in jdump(row["nodes"])
+        root = build(root_abs, variant)
+        bad = check_sort(root, row["sorted"], row["sortedPost"]) or check_sort(root, row["sorted"], row["sortedPost"])
+        done("sort;sort", None, bad, {"sorted": row["sorted"], "sortedPost": row["sortedPost"]})
+        for j, q in enumerate(row["seqs"]):
+            root = build(root_abs, variant)
+            bad = check_sort(root, row["sorted"], row["sortedPost"])
+            if not bad:
+                if has_own_sort:
+                    # the first sort reordered (and flattened) the inside of the suites with sort_tests: same tests, as a set
+                    from testtools.testsuite import filter_by_ids
+
+                    root = filter_by_ids(root, idset(q["ids"], n + j))
+                    got = sorted((g[0], g[2]) for g in observe_leaves(root))
+                    exp = sorted((e[0], e[2]) for e in expected_leaves(q["kept"]))
+                    bad = None if got == exp else ("filter-ids", exp, got)
+                else:
+                    bad, root = check_filter(root, q["ids"], q["kept"], form=n + j)
+            if not bad:
+                bad = check_sort(root, q["sorted"], q["sortedPost"])
+            done("sort;filter;sort", q["ids"], bad, {"seq": q, "sorted": row["sorted"], "sortedPost": row["sortedPost"]})
     if prog is not None and root_abs["k"] != "holder":
         tmpdir, rnd = prog
         for op, arg, bad in check_program(rep, row, row["nodes"], root_abs, variant, tmpdir, rnd):
             done("run:" + op, arg, bad, {"leaves": row["leaves"], "filt": row["filt"]})
 
 
-def replay_behaviour(rep, hist, n, cfg):
-    """grow; filter_by_ids in place (twice); sorted_tests - comparing after every call."""
-    root_abs = nest(hist[0]["before"])
-    variant = n % 4
+def run_behaviour(hist, variant, n):
+    """Applies the calls of a behaviour to ONE real tree, comparing after every call; (index, bad) or (None, None).
+    After a presort the inside of suites with sort_tests is legitimately reordered / flattened: from then on a filter is
+    compared as a set of (test, id) and sorts are accepted under either reading of 'first test' (as always)."""
+    from testtools.testsuite import filter_by_ids
+
     set_variant(variant)
-    cur = build(root_abs, variant)
-    nt = nontrivial(root_abs)
+    cur = build(nest(hist[0]["before"]), variant)
+    own_sort = "customsort" in jdump(hist[0]["before"])
+    presorted = False
     for i, h in enumerate(hist):
         if h["a"] == "filter":
-            bad, cur = check_filter(cur, h["ids"], h["kept"], form=n + i)
+            if presorted and own_sort:
+                cur = filter_by_ids(cur, idset(h["ids"], n + i))
+                got = sorted((g[0], g[2]) for g in observe_leaves(cur))
+                exp = sorted((e[0], e[2]) for e in expected_leaves(h["kept"]))
+                bad = None if got == exp else ("filter-ids", exp, got)
+            else:
+                bad, cur = check_filter(cur, h["ids"], h["kept"], form=n + i)
         else:
             bad = check_sort(cur, h["sorted"], h["sortedPost"])
+            presorted = presorted or (h["a"] == "presort" and h["sorted"]["exc"] == "none")
         if bad:
-            ops = [(x["a"], x.get("ids")) for x in hist[: i + 1]]
-            if bad[0] == "sort-raised" and i > 0:
-                # the tree that was sorted is the filtered one: rebuild it abstractly for minimisation
-                sig = "sorted_tests-after-filter:%s:%s" % (str(bad[2]).split(":", 1)[0], shape(root_abs))
-                small = root_abs
-                kept = {tuple(o["p"]) for o in hist[i - 1]["kept"]}
-                ft = filtered_abs(hist[0]["before"], kept)
-                sig, small = signature("sort", bad, ft, variant)
-            else:
-                sig, small = signature(h["a"] + "@%d" % i, bad, root_abs, variant)
-            rep.violation(
-                bad[0], sig,
-                {"kind": "behaviour", "cfg": cfg, "hist": hist[: i + 1], "variant": variant, "ops": ops, "n": n},
-                expected=bad[1], observed=bad[2],
-            )
-            break
+            return i, bad
+    return None, None
+
+
+def replay_behaviour(rep, hist, n, cfg):
+    """grow; then on the same objects: filter_by_ids in place (twice), possibly a sorted_tests before or in between;
+    finally sorted_tests - comparing after every call."""
+    root_abs = nest(hist[0]["before"])
+    variant = n % 4
+    nt = nontrivial(root_abs)
+    i, bad = run_behaviour(hist, variant, n)
+    if bad:
+        ops = [(x["a"], x.get("ids")) for x in hist[: i + 1]]
+        opname = ";".join(x["a"] for x in hist[: i + 1])
+        filters = [x for x in hist[:i] if x["a"] == "filter"]
+        if bad[0] == "sort-raised" and filters:
+            # the tree that was sorted is the filtered one: rebuild it abstractly for minimisation
+            kept = {tuple(o["p"]) for o in filters[-1]["kept"]}
+            ft = filtered_abs(hist[0]["before"], kept)
+            sig, small = signature("sort", bad, ft, variant)
+        else:
+            sig, small = signature(opname, bad, root_abs, variant)
+        rep.violation(
+            bad[0], sig,
+            {"kind": "behaviour", "cfg": cfg, "hist": hist[: i + 1], "variant": variant, "ops": ops, "n": n},
+            expected=bad[1], observed=bad[2],
+        )
     rep.traces += 1
     rep.case(
         sample={"tree": shape(root_abs), "ops": [(x["a"], x.get("ids")) for x in hist]} if nt and n % 997 == 5 else None,
@@ -679,20 +723,23 @@ def replay_file(path, pid="C19"):
             bad, _ = check_filter(build(root_abs, sc["variant"]), sc["arg"], sc["kept"], sc.get("form", 0))
         elif sc["op"] == "sort":
             bad = check_sort(build(root_abs, sc["variant"]), sc["sorted"], sc["sortedPost"])
+        elif sc["op"] == "sort;sort":
+            root = build(root_abs, sc["variant"])
+            bad = check_sort(root, sc["sorted"], sc["sortedPost"]) or check_sort(root, sc["sorted"], sc["sortedPost"])
+        elif sc["op"] == "sort;filter;sort":
+            from testtools.testsuite import filter_by_ids
+
+            root = build(root_abs, sc["variant"])
+            bad = check_sort(root, sc["sorted"], sc["sortedPost"])
+            if not bad:
+                root = filter_by_ids(root, idset(sc["arg"]))
+                bad = check_sort(root, sc["seq"]["sorted"], sc["seq"]["sortedPost"])
         else:
             print("replay: testtools.run scenarios are replayed by re-running the check")
             return 2
     elif sc["kind"] == "behaviour":
         NIDS[0] = 4
-        hist = sc["hist"]
-        cur = build(nest(hist[0]["before"]), sc["variant"])
-        for i, h in enumerate(hist):
-            if h["a"] == "filter":
-                bad, cur = check_filter(cur, h["ids"], h["kept"], form=sc["n"] + i)
-            else:
-                bad = check_sort(cur, h["sorted"], h["sortedPost"])
-            if bad:
-                break
+        _, bad = run_behaviour(sc["hist"], sc["variant"], sc["n"])
     if bad:
         print("VIOLATION property=C19 replay=%s" % path)
         print("  clause=%s expected=%r observed=%r" % bad)
